@@ -277,7 +277,10 @@ def apply_action(mod, act, env, lib):
     if a == "Einsum":
         return mod.einsum(act["pattern"], X(), env[act["y"] - 1])
     if a == "MapPlain":
-        return X() * 2 if lib == "np" else X().map_blocks(block_double, dtype=X().dtype)
+        fn = act.get("fn", "double")
+        if lib == "np":
+            return X() * 2 if fn != "npround" else np.round(X())
+        return X().map_blocks({"double": block_double, "npround": np.round, "borrowed": block_borrowed}[fn], dtype=X().dtype)
     if a == "BlockFirst":
         x = X()
         if lib == "np":
@@ -445,6 +448,20 @@ def make_blockfn2(dax, snaps):
 def block_double(block):
     """grid-independent block function (MapPlain action)"""
     return block * 2
+
+
+def _borrowed():
+    import functools
+
+    @functools.wraps(np.round)
+    def wrapper(block):
+        return np.round(block) * 2
+
+    return wrapper
+
+
+# carries numpy.round's __module__ / __qualname__ / __name__ without being numpy.round
+block_borrowed = _borrowed()
 
 
 def block_half(block):
@@ -811,6 +828,8 @@ def replay_one(beh, grids, observers=(), compute_all=True, opts=None, emit=None)
                             d = apply_action(da, act, da_env, "da")
                     else:
                         d = apply_action(da, act, da_env, "da")
+                    if (opts or {}).get("touch_metadata"):
+                        d.chunks, d.dtype       # what a user's repr(d) / d.shape reads: evaluated (and cached) under the configuration in effect NOW
                     if any(d is o for o in da_env):
                         # identity operations (x[:], rechunk to the same chunks) return the very same object; the
                         # specification's handles are distinct collection objects, as after the user's x.copy()
